@@ -82,6 +82,20 @@ def any_deck(draw, tier='quick'):
     case = draw(gen_hier.decorate(case, bc=True))
     case['labels'] = sorted(set(case['labels']) | {'gen:' + which})
     case['argv'] = draw(options())
+    deck = case['deck']
+    if deck.get('materials') and draw(st.integers(0, 19)) == 0 and \
+            any(c.get('mat') for c in deck['cells']):
+        # the material cards live in a file of their own, pulled in by a READ
+        # card (a shared material library): whatever the converter does with
+        # the card, what it writes must be complete
+        deck['materials'] = []
+        deck['extra_data'] = list(deck.get('extra_data') or []) + [
+            draw(st.sampled_from(['read file=materials.inc noecho',
+                                  'read file=materials.inc',
+                                  'READ FILE=materials.inc NOECHO',
+                                  'read noecho file = materials.inc']))]
+        case['labels'] = sorted(set(case['labels'])
+                                | {'materials-through-read-card'})
     return case
 
 
@@ -116,6 +130,11 @@ def structural_outcome(text, argv, labels, deck_has_fill):
         if res.exc_type == 'NotImplementedError' and \
                 'macrobodies' in (res.exc_msg or ''):
             return skip('rejected:bc-on-macrobody', labels)
+        if 'materials-through-read-card' in labels and \
+                res.exc_type == 'NotImplementedError' and \
+                'READ' in (res.exc_msg or ''):
+            # refused with an error that names the card
+            return skip('refused:read-card', labels)
         return violation('crash:%s' % res.crash_key(),
                          {'error': res.brief(), 'frames': res.frames,
                           'deck': text, 'argv': argv}, labels)
